@@ -430,7 +430,7 @@ func checkC12Srv(job *Job, res *Result) {
 				}
 				for _, f := range filters {
 					for _, lim := range []string{"", "1", "2", "3", "100"} {
-						for _, cur := range []string{"", "2", "5", "9", "10", "1000"} {
+						for _, cur := range []string{"", "2", "5", "9", "10", "1000", "9223372036854775808", "18446744073709551615"} {
 							caseNo++
 							if caseNo%job.NShards != job.Shard {
 								continue
